@@ -1,0 +1,141 @@
+//go:build verif
+
+package buffer
+
+// Contracts for the deductive verifier in /verif (govc). This file contains
+// comments only; it is compiled to nothing and is excluded without the tag.
+
+//@ func (*Reader).reset
+//@   props C03 C10 C18 C04
+//@   ghostparam wa wi
+//@   requires reader != nil && size >= 0
+//@   ensures [len] len(reader.Msg) == size
+//@   ensures [advance-or-fresh] (arr(reader.Msg) == arr(old(reader.Msg)) && off(reader.Msg) == end(old(reader.Msg))) || fresh(arr(reader.Msg))
+//@   ensures [cap-end] !fresh(arr(reader.Msg)) ==> off(reader.Msg) + cap(reader.Msg) == off(old(reader.Msg)) + cap(old(reader.Msg))
+//@   ensures [stays-exposed] {C18} (wa <= old(#alloc) && Exposed(old(reader.Msg), wa, wi)) ==> Exposed(reader.Msg, wa, wi)
+//@   ensures [alloc-bound] {C04 C10} #maxalloc <= max(old(#maxalloc), max(size, 4096))
+//@   modifies reader.Msg, #maxalloc, #nalloc
+
+//@ func NewReader
+//@   props C03 C10 C11 C04
+//@   ensures [nil-source] reader == nil ==> result == nil
+//@   ensures [ctor] reader != nil ==> (ReaderOK(result) && fresh(result) && result.Msg == nil)
+//@   ensures [default] {C10} reader != nil ==> result.MaxMessageSize == (bufferSize <= 0 ? 16777216 : bufferSize)
+//@   ensures [source] {C11} reader != nil ==> (result.Buffer.#src == val(reader) && result.Buffer.#pos == 0 && fresh(result.Buffer))
+//@   modifies nothing
+
+//@ func (*Reader).ReadType
+//@   props C03 C04
+//@   requires ReaderOK(reader)
+//@   ensures [consume1] result.1 == nil ==> (reader.Buffer.#pos == old(reader.Buffer.#pos) + 1 && result.0 == stream(reader.Buffer, old(reader.Buffer.#pos)))
+//@   ensures [err-consume0] result.1 != nil ==> reader.Buffer.#pos == old(reader.Buffer.#pos)
+//@   ensures [transport-err] result.1 != nil ==> !isExceeded(result.1)
+//@   modifies reader.Buffer.#pos
+
+//@ func (*Reader).ReadMsgSize
+//@   props C03 C10 C18 C04
+//@   requires ReaderOK(reader)
+//@   ensures [consume4] result.1 == nil ==> reader.Buffer.#pos == old(reader.Buffer.#pos) + 4
+//@   ensures [size] result.1 == nil ==> result.0 == sbe32(reader.Buffer, old(reader.Buffer.#pos)) - 4
+//@   ensures [range] result.1 == nil ==> (-4 <= result.0 && result.0 <= 4294967291)
+//@   ensures [err-partial] result.1 != nil ==> (old(reader.Buffer.#pos) <= reader.Buffer.#pos && reader.Buffer.#pos < old(reader.Buffer.#pos) + 4)
+//@   ensures [transport-err] result.1 != nil ==> !isExceeded(result.1)
+//@   modifies reader.Buffer.#pos, arrayof(reader.header)
+
+//@ func (*Reader).ReadUntypedMsg
+//@   props C03 C10 C18 C04
+//@   ghostparam wa wi
+//@   requires ReaderOK(reader)
+//@   ensures [ok] ReaderOK(reader)
+//@   ensures [exact-consume] result.1 == nil ==> reader.Buffer.#pos == old(reader.Buffer.#pos) + 4 + len(reader.Msg)
+//@   ensures [declared] result.1 == nil ==> len(reader.Msg) == sbe32(reader.Buffer, old(reader.Buffer.#pos)) - 4
+//@   ensures [count] result.1 == nil ==> result.0 == 4 + len(reader.Msg)
+//@   ensures [body] result.1 == nil ==> (forall k :: (0 <= k && k < len(reader.Msg)) ==> reader.Msg[k] == stream(reader.Buffer, old(reader.Buffer.#pos) + 4 + k))
+//@   ensures [limit-exact] {C10} result.1 == nil ==> (0 <= len(reader.Msg) && len(reader.Msg) <= reader.MaxMessageSize)
+//@   ensures [exceed-error] {C10} (reader.Buffer.#pos >= old(reader.Buffer.#pos) + 4 && (sbe32(reader.Buffer, old(reader.Buffer.#pos)) - 4 > reader.MaxMessageSize || sbe32(reader.Buffer, old(reader.Buffer.#pos)) - 4 < 0)) ==> (result.1 != nil && isExceeded(result.1) && excSize(result.1) == sbe32(reader.Buffer, old(reader.Buffer.#pos)) - 4 && excMax(result.1) == reader.MaxMessageSize)
+//@   ensures [exceed-untouched] {C10} (reader.Buffer.#pos >= old(reader.Buffer.#pos) + 4 && (sbe32(reader.Buffer, old(reader.Buffer.#pos)) - 4 > reader.MaxMessageSize || sbe32(reader.Buffer, old(reader.Buffer.#pos)) - 4 < 0)) ==> (reader.Msg == old(reader.Msg) && reader.Buffer.#pos == old(reader.Buffer.#pos) + 4 && #maxalloc == old(#maxalloc) && #nalloc == old(#nalloc))
+//@   ensures [within-not-exceeded] {C10} (result.1 != nil && isExceeded(result.1)) ==> (reader.Buffer.#pos == old(reader.Buffer.#pos) + 4 && excSize(result.1) == sbe32(reader.Buffer, old(reader.Buffer.#pos)) - 4 && excMax(result.1) == reader.MaxMessageSize && (excSize(result.1) > reader.MaxMessageSize || excSize(result.1) < 0) && reader.Msg == old(reader.Msg))
+//@   ensures [short] result.1 != nil ==> reader.Buffer.#pos >= old(reader.Buffer.#pos)
+//@   ensures [alloc-bound] {C04 C10} #maxalloc <= max(old(#maxalloc), max(reader.MaxMessageSize, 4096))
+//@   ensures [no-overwrite] {C18} (wa <= old(#alloc) && Exposed(old(reader.Msg), wa, wi)) ==> mem(wa, wi) == old(mem(wa, wi))
+//@   ensures [stays-exposed] {C18} (wa <= old(#alloc) && Exposed(old(reader.Msg), wa, wi)) ==> Exposed(reader.Msg, wa, wi)
+//@   modifies reader.Buffer.#pos, arrayof(reader.header), reader.Msg, memtail(reader.Msg), #maxalloc, #nalloc
+
+//@ func (*Reader).ReadTypedMsg
+//@   props C03 C10 C18 C04
+//@   ghostparam wa wi
+//@   requires ReaderOK(reader)
+//@   ensures [ok] ReaderOK(reader)
+//@   ensures [exact-consume] result.2 == nil ==> reader.Buffer.#pos == old(reader.Buffer.#pos) + 1 + 4 + len(reader.Msg)
+//@   ensures [type] result.2 == nil ==> result.0 == stream(reader.Buffer, old(reader.Buffer.#pos))
+//@   ensures [declared] result.2 == nil ==> len(reader.Msg) == sbe32(reader.Buffer, old(reader.Buffer.#pos) + 1) - 4
+//@   ensures [body] result.2 == nil ==> (forall k :: (0 <= k && k < len(reader.Msg)) ==> reader.Msg[k] == stream(reader.Buffer, old(reader.Buffer.#pos) + 5 + k))
+//@   ensures [limit-exact] {C10} result.2 == nil ==> (0 <= len(reader.Msg) && len(reader.Msg) <= reader.MaxMessageSize)
+//@   ensures [exceeded] {C10} (result.2 != nil && isExceeded(result.2)) ==> (reader.Buffer.#pos == old(reader.Buffer.#pos) + 5 && excSize(result.2) == sbe32(reader.Buffer, old(reader.Buffer.#pos) + 1) - 4 && (excSize(result.2) > reader.MaxMessageSize || excSize(result.2) < 0) && reader.Msg == old(reader.Msg))
+//@   ensures [exceed-error] {C10} (reader.Buffer.#pos >= old(reader.Buffer.#pos) + 5 && (sbe32(reader.Buffer, old(reader.Buffer.#pos) + 1) - 4 > reader.MaxMessageSize || sbe32(reader.Buffer, old(reader.Buffer.#pos) + 1) - 4 < 0)) ==> (result.2 != nil && isExceeded(result.2))
+//@   ensures [alloc-bound] {C04 C10} #maxalloc <= max(old(#maxalloc), max(reader.MaxMessageSize, 4096))
+//@   ensures [no-overwrite] {C18} (wa <= old(#alloc) && Exposed(old(reader.Msg), wa, wi)) ==> mem(wa, wi) == old(mem(wa, wi))
+//@   ensures [stays-exposed] {C18} (wa <= old(#alloc) && Exposed(old(reader.Msg), wa, wi)) ==> Exposed(reader.Msg, wa, wi)
+//@   modifies reader.Buffer.#pos, arrayof(reader.header), reader.Msg, memtail(reader.Msg), #maxalloc, #nalloc
+
+//@ func (*Reader).Slurp
+//@   props C03 C10 C18 C04
+//@   ghostparam wa wi
+//@   requires ReaderOK(reader)
+//@   ensures [ok] ReaderOK(reader)
+//@   ensures [skip-exact] {C10} result == nil ==> reader.Buffer.#pos == old(reader.Buffer.#pos) + max(size, 0)
+//@   ensures [alloc-bound] {C04 C10} #maxalloc <= max(old(#maxalloc), max(reader.MaxMessageSize, 4096))
+//@   ensures [no-overwrite] {C18} (wa <= old(#alloc) && Exposed(old(reader.Msg), wa, wi)) ==> mem(wa, wi) == old(mem(wa, wi))
+//@   ensures [stays-exposed] {C18} (wa <= old(#alloc) && Exposed(old(reader.Msg), wa, wi)) ==> Exposed(reader.Msg, wa, wi)
+//@   modifies reader.Buffer.#pos, reader.Msg, memtail(reader.Msg), #maxalloc, #nalloc
+//@   loop 0
+//@     invariant [ok] ReaderOK(reader)
+//@     invariant [remaining] (size < 0 && remaining == size) || (0 <= remaining && remaining <= size)
+//@     invariant [pos] reader.Buffer.#pos == old(reader.Buffer.#pos) + (max(size, 0) - max(remaining, 0))
+//@     invariant [alloc-bound] #maxalloc <= max(old(#maxalloc), max(reader.MaxMessageSize, 4096))
+//@     invariant [window] Advanced(reader.Msg, old(reader.Msg)) || arr(reader.Msg) > old(#alloc)
+//@     invariant [no-overwrite] {C18} (wa <= old(#alloc) && Exposed(old(reader.Msg), wa, wi)) ==> mem(wa, wi) == old(mem(wa, wi))
+//@     invariant [stays-exposed] {C18} (wa <= old(#alloc) && Exposed(old(reader.Msg), wa, wi)) ==> Exposed(reader.Msg, wa, wi)
+//@     decreases remaining
+
+//@ func (*Reader).GetString
+//@   props C03 C18 C04
+//@   requires reader != nil
+//@   ensures [terminated] result.1 == nil ==> (off(reader.Msg) == off(old(reader.Msg)) + slen(result.0) + 1 && end(reader.Msg) == end(old(reader.Msg)) && arr(reader.Msg) == arr(old(reader.Msg)))
+//@   ensures [in-window] result.1 == nil ==> (slen(result.0) < len(old(reader.Msg)) && viewarr(result.0) == arr(old(reader.Msg)) && viewoff(result.0) == off(old(reader.Msg)))
+//@   ensures [nulfree] result.1 == nil ==> nulfree(result.0)
+//@   ensures [terminator] result.1 == nil ==> mem(arr(old(reader.Msg)), off(old(reader.Msg)) + slen(result.0)) == 0
+//@   ensures [unterminated] result.1 != nil ==> (reader.Msg == old(reader.Msg) && result.0 == "")
+//@   modifies reader.Msg
+
+//@ func (*Reader).GetBytes
+//@   props C03 C18 C04 C08
+//@   requires reader != nil
+//@   requires [n-nonneg] n >= 0
+//@   ensures [short] len(old(reader.Msg)) < n ==> (result.1 != nil && result.0 == nil && reader.Msg == old(reader.Msg))
+//@   ensures [view] len(old(reader.Msg)) >= n ==> (result.1 == nil && arr(result.0) == arr(old(reader.Msg)) && off(result.0) == off(old(reader.Msg)) && len(result.0) == n)
+//@   ensures [advance] len(old(reader.Msg)) >= n ==> (arr(reader.Msg) == arr(old(reader.Msg)) && off(reader.Msg) == off(old(reader.Msg)) + n && len(reader.Msg) == len(old(reader.Msg)) - n)
+//@   modifies reader.Msg
+
+//@ func (*Reader).GetPrepareType
+//@   props C03 C04
+//@   requires reader != nil
+//@   ensures [short] len(old(reader.Msg)) < 1 ==> (result.1 != nil && reader.Msg == old(reader.Msg))
+//@   ensures [value] len(old(reader.Msg)) >= 1 ==> (result.1 == nil && result.0 == mem(arr(old(reader.Msg)), off(old(reader.Msg))) && len(reader.Msg) == len(old(reader.Msg)) - 1)
+//@   modifies reader.Msg
+
+//@ func (*Reader).GetUint16
+//@   props C03 C04 C08
+//@   requires reader != nil
+//@   ensures [short] len(old(reader.Msg)) < 2 ==> (result.1 != nil && result.0 == 0 && reader.Msg == old(reader.Msg))
+//@   ensures [value] len(old(reader.Msg)) >= 2 ==> (result.1 == nil && result.0 == mbe16(arr(old(reader.Msg)), off(old(reader.Msg))))
+//@   ensures [advance] len(old(reader.Msg)) >= 2 ==> (arr(reader.Msg) == arr(old(reader.Msg)) && off(reader.Msg) == off(old(reader.Msg)) + 2 && len(reader.Msg) == len(old(reader.Msg)) - 2)
+//@   modifies reader.Msg
+
+//@ func (*Reader).GetUint32
+//@   props C03 C04 C08
+//@   requires reader != nil
+//@   ensures [short] len(old(reader.Msg)) < 4 ==> (result.1 != nil && result.0 == 0 && reader.Msg == old(reader.Msg))
+//@   ensures [value] len(old(reader.Msg)) >= 4 ==> (result.1 == nil && result.0 == mbe32(arr(old(reader.Msg)), off(old(reader.Msg))))
+//@   ensures [advance] len(old(reader.Msg)) >= 4 ==> (arr(reader.Msg) == arr(old(reader.Msg)) && off(reader.Msg) == off(old(reader.Msg)) + 4 && len(reader.Msg) == len(old(reader.Msg)) - 4)
+//@   modifies reader.Msg
